@@ -9,6 +9,7 @@ Copyright 2022 Huawei Cloud Computing Technologies Co., Ltd.
 */
 
 import (
+	"sort"
 	"time"
 
 	"github.com/openGemini/openGemini/lib/config"
@@ -238,15 +239,23 @@ func (rpi *RetentionPolicyInfo) Apply(spec *RetentionPolicySpec) *RetentionPolic
 }
 
 func (rpi *RetentionPolicyInfo) shardingType() string {
-	shardType := ""
-	if len(rpi.Measurements) > 0 {
-		for _, mst := range rpi.Measurements {
-			if len(mst.ShardKeys) > 0 {
-				shardType = mst.ShardKeys[0].Type
+	// Every replica has to get the same answer: go through the measurements by name (live ones
+	// first), not in map iteration order - a policy can hold versions of one measurement name
+	// that differ in sharding type.
+	names := make([]string, 0, len(rpi.Measurements))
+	for name := range rpi.Measurements {
+		names = append(names, name)
+	}
+	sort.Strings(names)
+	for _, deleted := range []bool{false, true} {
+		for _, name := range names {
+			mst := rpi.Measurements[name]
+			if mst.MarkDeleted == deleted && len(mst.ShardKeys) > 0 {
+				return mst.ShardKeys[0].Type
 			}
 		}
 	}
-	return shardType
+	return ""
 }
 
 func (rpi *RetentionPolicyInfo) TimeRangeInfo(shardID uint64) *ShardTimeRangeInfo {
